@@ -609,7 +609,7 @@ pub fn render_dimacs(v: &DimacsValue, canonical: bool, rng: &mut StdRng) -> Vec<
         if canonical { return; }
         for _ in 0..rng.gen_range(0..3) {
             match rng.gen_range(0..6) {
-                0 => { out.push_str(["c", "c comment", "c 1 2 0", "c\tx", "cc"][rng.gen_range(0..5)]); out.push_str(if crlf { "\r\n" } else { "\n" }); }
+                0 => { out.push_str(["c", "c comment", "c 1 2 0", "c\tx", "cc", "c limit 20\u{b0} 7 0", "c \u{e9}t\u{e9} \u{20ac} 1 -2 0", "c a fairly long comment line with an \u{fc}mlaut near its end 3 0"][rng.gen_range(0..8)]); out.push_str(if crlf { "\r\n" } else { "\n" }); }
                 1 => { out.push_str(if crlf { "\r\n" } else { "\n" }); }
                 2 => { out.push_str([" \n", "\t\n", "  \t \n"][rng.gen_range(0..3)]); }
                 _ => {}
@@ -618,7 +618,11 @@ pub fn render_dimacs(v: &DimacsValue, canonical: bool, rng: &mut StdRng) -> Vec<
         if indent_ok && rng.gen_range(0..5) == 0 { out.push_str([" ", "\t", "   "][rng.gen_range(0..3)]); }
     };
     let num = |x: i64, rng: &mut StdRng| -> String {
-        if !canonical && rng.gen_range(0..8) == 0 { format!("{}{}{}", if x < 0 { "-" } else { "" }, "0".repeat(rng.gen_range(1..4)), x.abs()) } else { x.to_string() }
+        if !canonical && rng.gen_range(0..8) == 0 {
+            // leading zeros: a few, or so many that the numeral is longer than any machine word's decimal text
+            let z = if rng.gen_range(0..4) == 0 { [7usize, 8, 9, 16, 40, 63, 64, 65, 100][rng.gen_range(0..9)] } else { rng.gen_range(1..4) };
+            format!("{}{}{}", if x < 0 { "-" } else { "" }, "0".repeat(z), x.abs())
+        } else { x.to_string() }
     };
     filler(&mut out, rng, true);
     if let Some((a, b, c)) = v.header {
@@ -639,7 +643,7 @@ pub fn render_dimacs(v: &DimacsValue, canonical: bool, rng: &mut StdRng) -> Vec<
                 if rng.gen_range(0..3) == 0 { out.push_str([" ", "\t"][rng.gen_range(0..2)]); }
                 out.push_str(if crlf { "\r\n" } else { "\n" });
                 for _ in 0..rng.gen_range(0..3) {
-                    match rng.gen_range(0..3) { 0 => out.push_str("c mid 0\n"), 1 => out.push_str(if crlf { "\r\n" } else { "\n" }), _ => out.push_str(" \t\n") }
+                    match rng.gen_range(0..3) { 0 => out.push_str(["c mid 0\n", "c m\u{e9}d 5 0\n"][rng.gen_range(0..2)]), 1 => out.push_str(if crlf { "\r\n" } else { "\n" }), _ => out.push_str(" \t\n") }
                 }
                 if rng.gen_range(0..3) == 0 { out.push_str(["  ", "\t"][rng.gen_range(0..2)]); }
             } else {
@@ -677,9 +681,9 @@ pub fn render_log(v: &LogValue, canonical: bool, unknown_lines: bool, rng: &mut 
         if canonical { return; }
         for _ in 0..rng.gen_range(0..3) {
             if unknown_lines && rng.gen_bool(0.5) {
-                out.push_str(["\n", "c\n", "foo bar\n", " s SATISFIABLE\n", "x 1 2 0\n"][rng.gen_range(0..5)]);
+                out.push_str(["\n", "c\n", "foo bar\n", " s SATISFIABLE\n", "x 1 2 0\n", "progress 20\u{b0} v 7 0\n", "\u{e9}\n"][rng.gen_range(0..7)]);
             } else {
-                out.push_str(["c hello\n", "c \n", "c s SATISFIABLE\n", "c v 1 0\n"][rng.gen_range(0..4)]);
+                out.push_str(["c hello\n", "c \n", "c s SATISFIABLE\n", "c v 1 0\n", "c conflicts 12\u{b7}10\u{b3} v 3 0\n", "c \u{20ac}\n"][rng.gen_range(0..6)]);
             }
         }
     };
@@ -691,7 +695,11 @@ pub fn render_log(v: &LogValue, canonical: bool, unknown_lines: bool, rng: &mut 
     if s_first { s_line(&mut out); filler(&mut out, rng); }
     if v.has_v {
         // split the value lines arbitrarily
-        let mut toks: Vec<String> = v.lits.iter().map(|l| l.to_string()).collect();
+        let mut toks: Vec<String> = v.lits.iter().map(|l| {
+            if !canonical && rng.gen_range(0..10) == 0 {
+                format!("{}{}{}", if *l < 0 { "-" } else { "" }, "0".repeat([1usize, 8, 40, 64, 65, 100][rng.gen_range(0..6)]), l.abs())
+            } else { l.to_string() }
+        }).collect();
         toks.push("0".to_string());
         out.push_str("v");
         let mut fresh = true;
@@ -832,11 +840,29 @@ fn encode_delta_padded(d: u128, pad: usize, out: &mut Vec<u8>) {
     }
 }
 
-pub fn gen_aiger_bounds(binary: bool, rng: &mut StdRng) -> Vec<u8> {
+/// the largest maximum variable index a literal type admits: (MAX_CODE - 1) / 2
+fn aiger_type_max_var(lit: &str) -> u128 {
+    match lit {
+        "u8" => 127,
+        "c100" => 49,
+        "u16" => 32767,
+        "u32" => 2147483647,
+        _ => 9223372036854775807,
+    }
+}
+
+pub fn gen_aiger_bounds(binary: bool, lit_ty: &str, rng: &mut StdRng) -> Vec<u8> {
     let i = rng.gen_range(0..3usize);
     let l = rng.gen_range(0..2usize);
     let a = rng.gen_range(0..3usize);
-    let m = (i + l + a + [0usize, 0, 0, 1][rng.gen_range(0..4)]).saturating_sub(if rng.gen_range(0..8) == 0 { 1 } else { 0 });
+    let mut m = (i + l + a + [0usize, 0, 0, 1][rng.gen_range(0..4)]).saturating_sub(if rng.gen_range(0..8) == 0 { 1 } else { 0 });
+    // the maximum variable index on and around what the literal type admits
+    let m_text: Option<String> = if rng.gen_range(0..6) == 0 {
+        let lim = aiger_type_max_var(lit_ty);
+        let v = [lim, lim + 1, lim.saturating_sub(1), lim + 2, 2 * lim + 1, 2 * lim + 2][rng.gen_range(0..6)];
+        if v <= 1 << 20 { m = v as usize; }
+        Some(v.to_string())
+    } else { None };
     let maxlit = 2 * m + 1;
     let lit = |rng: &mut StdRng| -> String {
         match rng.gen_range(0..10) {
@@ -852,7 +878,7 @@ pub fn gen_aiger_bounds(binary: bool, rng: &mut StdRng) -> Vec<u8> {
     let o = rng.gen_range(0..3usize);
     let b = rng.gen_range(0..2usize);
     let mut out: Vec<u8> = vec![];
-    let mut hdr = format!("{} {} {} {} {} {}", if binary { "aig" } else { "aag" }, m, i, l, o, a);
+    let mut hdr = format!("{} {} {} {} {} {}", if binary { "aig" } else { "aag" }, m_text.clone().unwrap_or(m.to_string()), i, l, o, a);
     // justice properties whose sizes are tiny or (together) exceed what a usize can count
     let j = if rng.gen_range(0..3) == 0 { rng.gen_range(1..4usize) } else { 0 };
     let jsizes: Vec<String> = (0..j).map(|_| match rng.gen_range(0..6) {
